@@ -66,6 +66,31 @@ def run(task):
 
         rnd = random.Random(task["seed"])
         ev = []
+        # structured edge cases: genotypes over alleles around the 100-row lookup-table edge, all ploidies;
+        # their ranks are exactly the block boundaries of the inverse map
+        import itertools
+        edge = [0, 1, 2, 98, 99, 100, 101, 102, 150, 199]
+        for p in (1, 2, 3, 4, 5, 12, 13):
+            combos = itertools.combinations_with_replacement(edge, p) if p <= 3 else (
+                tuple(sorted(rnd.choice(edge) for _ in range(p))) for _ in range(150))
+            for g in combos:
+                if mcomb(g[-1] + p, p) >= 2**53:
+                    continue
+                g = list(g)
+                idx = int(J.genotype_alleles_as_index(np.array(g, dtype=np.int64)))
+                ev.append({"op": "index", "alleles": g, "limbs": limbs(idx)})
+                for j in (idx - 1, idx, idx + 1):
+                    if j >= 0:
+                        a = [int(x) for x in J.index_as_genotype_alleles(j, p)]
+                        ev.append({"op": "unrank", "alleles": a, "limbs": limbs(j), "ploidy": p})
+        # binomials with k > n are zero (also through the lookup table and any symmetry shortcut)
+        for n in list(range(0, 30)) + [98, 99, 100, 101, 128]:
+            for k in (n + 1, n + 2, 11, 12, 13, 14):
+                if k > n and k <= 14:
+                    ev.append({"op": "comb", "n": n, "k": k, "limbs": limbs(J.comb(n, k))})
+                    ev.append({"op": "comb", "n": n, "k": k, "limbs": limbs(J._comb(n, k))})
+        base = len(ev)
+        task = dict(task, n=task["n"] + base)
         while len(ev) < task["n"]:
             p = rnd.randint(1, 12)
             na = rnd.choice([2, 3, 5, 17, 40, 100, 200])
